@@ -71,11 +71,16 @@ func (a encAlg) String() string {
 	return fmt.Sprintf("RC4-%d", a.bits)
 }
 
-func confFunc(w writerConf, a encAlg) func() *model.Configuration {
+// confFunc: huge raises the resource limit on object numbers (default 10 million: pdfcpu refuses documents with an
+// object number or a cross-reference stream /Size above it) so that documents numbered >= 2^24 are processed.
+func confFunc(w writerConf, a encAlg, huge bool) func() *model.Configuration {
 	return func() *model.Configuration {
 		c := opcat.DefaultConf()
 		c.WriteXRefStream, c.WriteObjectStream, c.Eol = w.XRefStream, w.ObjStream, eolVals[w.Eol]
 		c.EncryptUsingAES, c.EncryptKeyLength = a.aes, a.bits
+		if huge {
+			c.Limits.MaxObjectCount = 1 << 25
+		}
 		return c
 	}
 }
@@ -289,7 +294,8 @@ func (r *runner) runCase(i int, w writerConf, a encAlg, tag string) caseOut {
 	if os.Getenv("VERIF_KEEP") == "" {
 		defer os.RemoveAll(dir)
 	}
-	conf := confFunc(w, a)
+	_, forced := r.forced[i]
+	conf := confFunc(w, a, forced && r.pool.Inputs[sparseInput(pl)].Tags["huge"])
 	incremental := opwl.Incremental(pl.Op) && pl.InPlace && pl.Op.InPlace
 	opts := opwl.RunOptions{Conf: conf}
 	if incremental {
@@ -481,7 +487,7 @@ func main() {
 		t.Assume("incremental outputs (annotation operations with incr=true, in place): a base with structural defects is first rewritten by pdfcpu with the same writer configuration; defects that the base bytes already have are not charged to the increment")
 		t.Assume("byte-copy operations (PatchFile, pdfcpu.Write*, pdfcpu.CopyFile) and operations without PDF output (Extract* except ExtractPagesFile, Export*) are out of scope; at most 16 outputs per call are read (first 8 and last 8 by name)")
 
-		t.Rule("numbering extremes: pdfgen documents renumbered sparsely (strided numbers, objects >= 65536 and >= 2^24, generation numbers > 0, free entries at high numbers, /Size much larger than the object count; object and xref streams, classic tables with gaps or listed holes, incremental updates) replace the generic input of a whole-document rewrite, an incremental annotation update and seeded further operations; each such case runs under ALL four writers (xref table/stream × object streams) with the EOL rotating (thorough: × LF/CR/CRLF); documents >= 2^24: quick one document under two writers, thorough under all four")
+		t.Rule("numbering extremes: pdfgen documents renumbered sparsely (strided numbers, objects >= 65536 and >= 2^24, generation numbers > 0, free entries at high numbers, /Size much larger than the object count; object and xref streams, classic tables with gaps or listed holes, incremental updates) replace the generic input of a whole-document rewrite, an incremental annotation update and seeded further operations; each such case runs under ALL four writers (xref table/stream × object streams) with the EOL rotating (thorough: × LF/CR/CRLF); documents >= 2^24 (run with Limits.MaxObjectCount raised to 2^25, the default of 10 million refuses them): quick one document under one of the two xref stream writers, thorough three documents x 2 operations under all four writers")
 		ops := opwl.PDFOps()
 		pool := opwl.BuildPool(t, opwl.PoolOptions{Corpus: t.Pick(70, 1000), Gen: t.Pick(40, 300), Sparse: t.Pick(7, 49), SparseHuge: t.Pick(1, 3)})
 		n := t.Pick(3*len(ops)+len(ops)/2, 66*len(ops))
@@ -490,8 +496,8 @@ func main() {
 			huge := pool.Inputs[sparseInput(pl)].Tags["huge"]
 			base := pl.Index
 			for wi, w := range allWriters {
-				if huge && t.Quick() && (wi+base+seedMod(t, 2))%2 != 0 {
-					continue // quick: two of the four writers for a document >= 2^24
+				if huge && t.Quick() && (!w.XRefStream || (wi+base+seedMod(t, 2))%2 != 0) {
+					continue // quick: a document >= 2^24 costs 10-100 s: one of the two cross-reference STREAM writers (variable field widths)
 				}
 				for e := 0; e < 3; e++ {
 					if (t.Quick() || huge) && e != (base+wi+seedMod(t, 3))%3 {
